@@ -53,6 +53,67 @@ def op_case(fam, doc: Node, op, a, c, sl: Slice | None, node: Node | None):
     return Case(coq=coq, desc=desc, schema=info.schema_term(), kind=f"{op}/{outcome}", nontrivial=len(tr.steps) > 0)
 
 
+def planner_case(fam, doc: Node, a, c, sl: Slice):
+    """transform/replace.py: replace_step(doc, from, to, slice) — the step the fitter plans (or None), compared
+    with Model.Fitter in Coq"""
+    import pm
+    from common import opt
+    from prosemirror.transform.replace import replace_step
+    info = S.info_for(fam)
+    try:
+        st = replace_step(doc, a, c, sl)
+        ans = f"(AOptStep {opt(st, lambda x: S.step_term(info, x))})"
+        short = "none" if st is None else type(st).__name__
+    except Exception as e:  # noqa: BLE001
+        ans = f"(AErr {pm.err_class(e)})"
+        short = f"error:{type(e).__name__}"
+    coq = f"CStruct @S@ {info.node(doc)} (QReplaceStep {nat(a)} {nat(c)} {info.slice(sl)}) {ans}"
+    desc = {"case": "planner", "family": fam, "doc": doc.to_json(), "from": a, "to": c, "slice": gen.slice_to_json(sl),
+            "answer": short}
+    return Case(coq=coq, desc=desc, schema=info.schema_term(), kind=f"planner/{short.split(':')[0]}", nontrivial=True)
+
+
+def delete_range_case(fam, doc: Node, a, c, sl=None):
+    """Transform.delete_range(from, to) / replace_range(from, to, slice): the step it records, compared with
+    Model.RangeOps (covered_depths, the choice of the range and of the open depth) + Model.Fitter"""
+    import pm
+    from common import opt
+    info = S.info_for(fam)
+    if sl is not None:
+        return _replace_range_case(fam, doc, a, c, sl)
+    try:
+        tr = Transform(doc)
+        tr.delete_range(a, c)
+        st = tr.steps[-1] if tr.steps else None
+        ans = f"(AOptStep {opt(st, lambda x: S.step_term(info, x))})"
+        short = "none" if st is None else type(st).__name__
+    except Exception as e:  # noqa: BLE001
+        ans = f"(AErr {pm.err_class(e)})"
+        short = f"error:{type(e).__name__}"
+    coq = f"CStruct @S@ {info.node(doc)} (QDeleteRange {nat(a)} {nat(c)}) {ans}"
+    desc = {"case": "delete_range_plan", "family": fam, "doc": doc.to_json(), "from": a, "to": c, "answer": short}
+    return Case(coq=coq, desc=desc, schema=info.schema_term(), kind=f"delete_range_plan/{short.split(':')[0]}", nontrivial=True)
+
+
+def _replace_range_case(fam, doc: Node, a, c, sl: Slice):
+    import pm
+    from common import opt
+    info = S.info_for(fam)
+    try:
+        tr = Transform(doc)
+        tr.replace_range(a, c, sl)
+        st = tr.steps[-1] if tr.steps else None
+        ans = f"(AOptStep {opt(st, lambda x: S.step_term(info, x))})"
+        short = "none" if st is None else type(st).__name__
+    except Exception as e:  # noqa: BLE001
+        ans = f"(AErr {pm.err_class(e)})"
+        short = f"error:{type(e).__name__}"
+    coq = f"CStruct @S@ {info.node(doc)} (QReplaceRange {nat(a)} {nat(c)} {info.slice(sl)}) {ans}"
+    desc = {"case": "replace_range_plan", "family": fam, "doc": doc.to_json(), "from": a, "to": c,
+            "slice": gen.slice_to_json(sl), "answer": short}
+    return Case(coq=coq, desc=desc, schema=info.schema_term(), kind=f"replace_range_plan/{short.split(':')[0]}", nontrivial=True)
+
+
 def generate(rng: random.Random, tier: str):
     quick = tier == "quick"
     for fam in gen.FAMILY + gen.EXTRA_FAMILY:
@@ -69,10 +130,25 @@ def generate(rng: random.Random, tier: str):
                 if op == "replace_range_with" and node.is_text:
                     node = rng.choice([n for n in pool if not n.is_text] or [sc.nodes["paragraph"].create()])
                 yield op_case(fam, doc, op, a, c, sl, node)
+                if op in ("replace", "replace_with", "insert", "delete"):
+                    psl = sl if op == "replace" else (Slice.empty if op == "delete" else Slice(Fragment.from_(node), 0, 0))
+                    yield planner_case(fam, doc, a, a if op == "insert" else c, psl)
+                if op == "delete_range":
+                    yield delete_range_case(fam, doc, a, c)
+                if op == "replace_range":
+                    yield delete_range_case(fam, doc, a, c, sl)
 
 
 def rebuild(desc):
     sc = gen.family(desc["family"])
+    if desc.get("case") == "replace_range_plan":
+        return delete_range_case(desc["family"], Node.from_json(sc, desc["doc"]), desc["from"], desc["to"],
+                                 gen.slice_from_json(sc, desc["slice"]))
+    if desc.get("case") == "delete_range_plan":
+        return delete_range_case(desc["family"], Node.from_json(sc, desc["doc"]), desc["from"], desc["to"])
+    if desc.get("case") == "planner":
+        doc = Node.from_json(sc, desc["doc"])
+        return planner_case(desc["family"], doc, desc["from"], desc["to"], gen.slice_from_json(sc, desc["slice"]))
     doc = Node.from_json(sc, desc["doc"])
     sl = gen.slice_from_json(sc, desc["slice"]) if desc.get("slice") else None
     node = Node.from_json(sc, desc["node"]) if desc.get("node") else None
